@@ -35,3 +35,16 @@ class Join(E):
 
 def grammar():
     return extract_grammar([Seq, Join], E)
+
+
+from geneticengine.grammar.metahandlers.lists import ListSizeBetweenWithoutListOperations  # noqa: E402
+
+
+@dataclass
+class Many(E):
+    """a bounded list whose refinement generates the elements itself"""
+    items: Annotated[list[Seq], ListSizeBetweenWithoutListOperations(1, 3)]
+
+
+def grammar_with_lists():
+    return extract_grammar([Seq, Join, Many], E)
